@@ -116,6 +116,7 @@ type kase struct {
 	Fix    string       `json:"fix"`
 	Cur    string       `json:"cur"`
 	Plan   *sessionPlan `json:"plan,omitempty"` // session cases
+	ret    *retainer    // per-goroutine store of every value the package handed back (not serialised)
 	// for index corruptions both alternatives (the bytes decide which applies)
 	FixBenign string `json:"fix_benign,omitempty"`
 	CurBenign string `json:"cur_benign,omitempty"`
@@ -127,6 +128,120 @@ type input struct {
 	Cases []kase  `json:"cases"` // replay mode: exactly these
 	Seed  int64   `json:"seed"`
 	Full  bool    `json:"full"` // thorough: every corruption in every subset also for long messages
+	// Concurrent round: Goroutines x Rounds honest round trips on distinct messages at the same time.
+	Concurrent *concSpec `json:"concurrent,omitempty"`
+}
+
+type concSpec struct {
+	Goroutines int  `json:"goroutines"`
+	Rounds     int  `json:"rounds"`
+	Only       bool `json:"only"` // replay of a concurrent divergence: run nothing else
+}
+
+// ---------------------------------------------------------------- results are values
+
+// retainer keeps every value the package handed back to this goroutine (rebuilt messages, local
+// shards and proofs, the shards / proofs / signatures of created units, padded and unpadded
+// buffers, decoded units) together with a private copy taken at that moment, and compares the
+// two again after many later calls (Propeller.tla, ResultsAreValues): a result that shares
+// memory with something the package reuses is correct when returned and silently changes later.
+type keptValue struct {
+	api  string
+	same func() bool
+	at   int // index into cases of the case that obtained it
+}
+
+type retainer struct {
+	e      *engine
+	items  []keptValue
+	cases  []kase
+	bytes  int
+	replay any // replay input when the cases are not table cases (the concurrent round)
+}
+
+func (r *retainer) begin(k *kase) {
+	if r == nil {
+		return
+	}
+	if len(r.cases) >= 2500 || r.bytes > 40<<20 {
+		r.flush()
+	}
+	c := *k
+	c.ret = nil
+	r.cases = append(r.cases, c)
+}
+
+func (r *retainer) keepBytes(api string, got []byte) {
+	if r == nil || len(got) == 0 {
+		return
+	}
+	want := bytes.Clone(got)
+	r.bytes += len(got)
+	r.items = append(r.items, keptValue{api: api, same: func() bool { return bytes.Equal(got, want) }, at: len(r.cases) - 1})
+}
+
+func (r *retainer) keepProof(api string, got merkle.Proof) {
+	if r == nil {
+		return
+	}
+	want := append([]merkle.Hash(nil), got.Siblings...)
+	r.bytes += 32 * len(want)
+	r.items = append(r.items, keptValue{api: api, same: func() bool {
+		if len(got.Siblings) != len(want) {
+			return false
+		}
+		for i := range want {
+			if got.Siblings[i] != want[i] {
+				return false
+			}
+		}
+		return true
+	}, at: len(r.cases) - 1})
+}
+
+func (r *retainer) keepUnits(api string, units []propeller.Unit) {
+	for i := range units {
+		for _, sh := range units[i].ShardData {
+			r.keepBytes(api+":shard", sh)
+		}
+		r.keepBytes(api+":signature", units[i].Signature)
+		r.keepProof(api+":proof", units[i].MerkleProof)
+	}
+}
+
+func (r *retainer) replayInput(from, to int) any {
+	if r.replay != nil {
+		return r.replay
+	}
+	return vh.J{"cases": r.cases[from:to], "seed": r.e.w.seed}
+}
+
+// flush re-examines everything kept; the replay input of a changed value is the case that obtained
+// it followed by the cases this goroutine ran afterwards (the later calls are what changes it).
+func (r *retainer) flush() {
+	if r == nil {
+		return
+	}
+	r.e.out.Count("retained_values_rechecked", len(r.items))
+	for _, it := range r.items {
+		if it.same() {
+			continue
+		}
+		from := max(it.at, 0)
+		to := min(len(r.cases), from+400)
+		k := kase{Kind: "retained"}
+		if from < len(r.cases) {
+			k = r.cases[from]
+		}
+		r.e.out.Diverge(vh.Divergence{
+			Key: "propeller-retained:" + it.api + ":changed-after-later-calls",
+			What: fmt.Sprintf("a value handed back by %s (case %s %s d=%d p=%d len=%d) was correct when returned and is different after later calls into the package: results must be values",
+				it.api, k.Kind, caseTag(&k), k.D, k.P, k.Len),
+			Input:    r.replayInput(from, to),
+			Expected: "unchanged", Observed: "changed",
+		})
+	}
+	r.items, r.cases, r.bytes = nil, nil, 0
 }
 
 // ---------------------------------------------------------------- deterministic material
@@ -361,7 +476,7 @@ func place(units []propeller.Unit, mask int) []*propeller.Unit {
 
 // construct runs ConstructMessageFromUnits and classifies: msg (bit-for-bit) | err | panic | other.
 // For "msg" it also checks the returned local shard and proof against the signed root.
-func construct(us []*propeller.Unit, orig []propeller.Unit, msg []byte, d, p int) (string, string) {
+func construct(ret *retainer, us []*propeller.Unit, orig []propeller.Unit, msg []byte, d, p int) (string, string) {
 	local := 0
 	for i, u := range us {
 		if u == nil {
@@ -374,6 +489,11 @@ func construct(us []*propeller.Unit, orig []propeller.Unit, msg []byte, d, p int
 		if err != nil {
 			return "err"
 		}
+		ret.keepBytes("ConstructMessageFromUnits:message", got)
+		for _, sh := range shard {
+			ret.keepBytes("ConstructMessageFromUnits:local-shard", sh)
+		}
+		ret.keepProof("ConstructMessageFromUnits:local-proof", proof)
 		if !bytes.Equal(got, msg) {
 			return "other"
 		}
@@ -426,12 +546,16 @@ func corrupt(u *propeller.Unit, f string, j int, rng *rand.Rand, other peer.ID) 
 // runCase executes one experiment on the real code and judges it.
 func (e *engine) runCase(k *kase) {
 	n := k.D + k.P
+	k.ret.begin(k)
 	switch k.Kind {
 	case "honest", "corrupt":
 		units, msg, class, detail := e.create(k.D, k.P, k.Len, k.NZ)
 		if class != "units" {
 			e.judge(k, "create-"+class, detail, k.Fix, k.Cur)
 			return
+		}
+		if k.Mask%16 == 3 {
+			k.ret.keepUnits("CreatePropellerUnits", units)
 		}
 		us := place(units, k.Mask)
 		fix, cur := k.Fix, k.Cur
@@ -449,7 +573,7 @@ func (e *engine) runCase(k *kase) {
 			}
 			us[slot] = c
 		}
-		obs, detail := construct(us, units, msg, k.D, k.P)
+		obs, detail := construct(k.ret, us, units, msg, k.D, k.P)
 		e.judge(k, obs, detail, fix, cur)
 	case "byz":
 		units, class, detail := e.byzantine(k.D, k.P, k.Pad)
@@ -457,7 +581,7 @@ func (e *engine) runCase(k *kase) {
 			e.judge(k, "create-"+class, detail, k.Fix, k.Cur)
 			return
 		}
-		obs, detail := construct(place(units, k.Mask), nil, []byte("\x00no message can come out of this\x00"), k.D, k.P)
+		obs, detail := construct(k.ret, place(units, k.Mask), nil, []byte("\x00no message can come out of this\x00"), k.D, k.P)
 		e.judge(k, obs, detail, k.Fix, k.Cur)
 	case "proto":
 		e.protoCase(k)
@@ -690,6 +814,9 @@ func (e *engine) sessionCase(k *kase) {
 			if units, err = e.handBuilt(ks[pl.Pub], msg, k.D, k.P, leaf); err != nil {
 				return "other:build:" + err.Error()
 			}
+			if pl.T == 0 {
+				k.ret.keepUnits("reedsolomon.EncodeData+merkle.New+SignMessage", units)
+			}
 			// which leaf encoding does this validator verify against?
 			probe := propeller.NewValidator(peers[pl.Pub].ID, sch)
 			s0 := pl.Steps[0]
@@ -761,6 +888,9 @@ func (e *engine) sessionCase(k *kase) {
 				if err != nil {
 					return "err:" + err.Error()
 				}
+				for _, sh := range rec {
+					k.ret.keepBytes("reedsolomon.RecoverData", sh)
+				}
 				var padded []byte
 				for i := 0; i < k.D; i++ {
 					padded = append(padded, rec[i]...)
@@ -792,6 +922,7 @@ func (e *engine) createCase(k *kase) {
 		sub("units-created", "units", "units", class, detail)
 		return
 	}
+	k.ret.keepUnits("CreatePropellerUnits", units)
 	n := k.D + k.P
 	b := func(ok bool) string { return map[bool]string{true: "yes", false: "no"}[ok] }
 	shape := len(units) == n
@@ -834,6 +965,8 @@ func (e *engine) createCase(k *kase) {
 	pad, detail := guard(func() string {
 		p := propeller.PadMessage(msg, k.D)
 		back, err := propeller.UnpadMessage(p)
+		k.ret.keepBytes("PadMessage", p)
+		k.ret.keepBytes("UnpadMessage", back)
 		return b(len(p) == k.U*k.D && err == nil && bytes.Equal(back, msg))
 	})
 	sub("pad-size-and-unpad-round-trip", "yes", "yes", pad, detail)
@@ -841,6 +974,9 @@ func (e *engine) createCase(k *kase) {
 		i := i
 		rt, detail := guard(func() string {
 			got, err := propeller.UnitFromProto(units[i].ToProto())
+			if err == nil {
+				k.ret.keepUnits("UnitFromProto", []propeller.Unit{got})
+			}
 			return b(err == nil && reflect.DeepEqual(got, units[i]))
 		})
 		if rt != "yes" {
@@ -1058,6 +1194,133 @@ func indexOf(xs []int, v int) int {
 	return -1
 }
 
+// concurrentRound: the processor runs one goroutine per message in flight and publishes on another
+// one.  G goroutines, each with its own publisher key and its own distinct messages, run honest
+// round trips at the same time: create the units, verify EVERY proof against the signed root,
+// verify the signature, rebuild from a random sufficient subset, compare bit for bit.  The
+// monitor is the specification's Reconstructs / proofs-verify per message (PerMessageResults:
+// what happens to one message does not depend on the others); every value handed back is also
+// kept and re-examined at the end (ResultsAreValues).
+func (e *engine) concurrentRound(spec *concSpec, cfgs [][2]int) int {
+	g, m := spec.Goroutines, spec.Rounds
+	keys := make([]crypto.PrivKey, g)
+	for i := range keys {
+		keys[i] = e.w.key(fmt.Sprintf("concurrent-publisher-%d", i))
+	}
+	input := vh.J{"concurrent": concSpec{Goroutines: g, Rounds: m, Only: true}, "seed": e.w.seed}
+	report := func(what, detail string, gi, round int, exp, obs string) {
+		key := "propeller-concurrent:" + what
+		if what == "known-slot0" {
+			key = "propeller-construct:panic:slot0-missing"
+		}
+		e.out.Diverge(vh.Divergence{Key: key,
+			What: fmt.Sprintf("%d goroutines x %d honest round trips on distinct messages at the same time: goroutine %d, round %d: %s %s",
+				g, m, gi, round, what, detail),
+			Input: input, Step: round, Expected: exp, Observed: obs})
+	}
+	var wg sync.WaitGroup
+	start := make(chan struct{})
+	for gi := 0; gi < g; gi++ {
+		wg.Add(1)
+		go func(gi int) {
+			defer wg.Done()
+			rng := e.w.rng("concurrent", gi)
+			ret := &retainer{e: e, replay: input}
+			priv := keys[gi]
+			pub := priv.GetPublic()
+			<-start
+			for r := 0; r < m; r++ {
+				c := cfgs[rng.Intn(len(cfgs))]
+				d, p := c[0], c[1]
+				n := d + p
+				l := rng.Intn(300)
+				if rng.Intn(10) < 7 {
+					l = 8<<10 + rng.Intn(88<<10) // long leaves: hashing them takes a while
+				}
+				msg := make([]byte, l)
+				rng.Read(msg)
+				if l >= 4 {
+					binary.LittleEndian.PutUint32(msg, uint32(gi<<16|r)) // distinct messages
+				}
+				var cid propeller.CommitteeID
+				rng.Read(cid[:])
+				nonce := propeller.Nonce(rng.Int63())
+				kk := kase{Kind: "concurrent", D: d, P: p, Len: l, What: fmt.Sprintf("goroutine-%d-round-%d", gi, r)}
+				ret.begin(&kk)
+				var units []propeller.Unit
+				class, detail := guard(func() string {
+					var err error
+					units, err = propeller.CreatePropellerUnits(priv, &cid, nonce, msg, d, p)
+					if err != nil {
+						return "err:" + err.Error()
+					}
+					return "units"
+				})
+				if class != "units" || len(units) != n {
+					report("create-failed", class+" "+detail, gi, r, "units", class)
+					continue
+				}
+				ret.keepUnits("CreatePropellerUnits", units)
+				class, detail = guard(func() string {
+					root := merkle.Hash(units[0].MessageRoot)
+					for i := range units {
+						if units[i].MessageRoot != units[0].MessageRoot {
+							return "roots-differ-between-units"
+						}
+						if !units[i].MerkleProof.Verify(&root, units[i].ShardData[0], uint32(i)) {
+							return fmt.Sprintf("proof-of-unit-%d-does-not-verify-against-the-signed-root", i)
+						}
+					}
+					if err := propeller.VerifyMessageSignature(pub, &units[0].MessageRoot, &cid, nonce, units[0].Signature); err != nil {
+						return "signature-does-not-verify"
+					}
+					return "all-verify"
+				})
+				if class != "all-verify" {
+					what := "proof-does-not-verify"
+					if class == "panic" {
+						what = "verify-panic"
+					} else if class == "signature-does-not-verify" {
+						what = class
+					}
+					report(what, class+" "+detail, gi, r, "all-verify", class)
+					continue
+				}
+				// a random sufficient subset
+				mask := 0
+				for bitsSet(mask) < d {
+					mask = rng.Intn(1 << n)
+				}
+				obs, detail := construct(ret, place(units, mask), units, msg, d, p)
+				switch {
+				case obs == "msg":
+				case obs == "panic" && mask&1 == 0 && strings.Contains(detail, "nil pointer"):
+					report("known-slot0", detail, gi, r, "msg", obs)
+				case obs == "panic":
+					report("rebuild-panic", detail, gi, r, "msg", obs)
+				case obs == "err":
+					report("rebuild-failed", fmt.Sprintf("d=%d p=%d len=%d subset=%b", d, p, l, mask), gi, r, "msg", obs)
+				default:
+					report("different-message", obs+" "+detail, gi, r, "msg", obs)
+				}
+				e.out.Count("cases:concurrent", 1)
+			}
+			ret.flush()
+		}(gi)
+	}
+	close(start)
+	wg.Wait()
+	return g * m
+}
+
+func bitsSet(m int) int {
+	c := 0
+	for ; m != 0; m &= m - 1 {
+		c++
+	}
+	return c
+}
+
 func TestPropellerReplay(t *testing.T) {
 	if !vh.Enabled() {
 		t.Skip()
@@ -1080,11 +1343,44 @@ func TestPropellerReplay(t *testing.T) {
 		e.w.committee(np)
 	}
 	total := 0
+	safely := func(k *kase) {
+		defer func() {
+			if p := recover(); p != nil {
+				msg := fmt.Sprint(p)
+				if strings.HasPrefix(msg, "propeller engine:") {
+					panic(p) // machinery
+				}
+				out.Diverge(vh.Divergence{Key: "propeller-panic:" + k.Kind + ":" + caseTag(k),
+					What:  fmt.Sprintf("panic outside the guarded calls: %v | %s", p, firstFrames(string(debug.Stack()))),
+					Input: vh.J{"cases": []kase{*k}, "seed": e.w.seed}, Expected: "no failure", Observed: "panic"})
+			}
+		}()
+		e.runCase(k)
+	}
+	if in.Concurrent != nil {
+		cfgs := [][2]int{{1, 1}, {1, 2}, {2, 2}, {2, 4}, {3, 6}}
+		if len(in.Fix) > 0 {
+			cfgs = cfgs[:0]
+			for i := range in.Fix {
+				if in.Fix[i].P > 0 {
+					cfgs = append(cfgs, [2]int{in.Fix[i].D, in.Fix[i].P})
+				}
+			}
+		}
+		total += e.concurrentRound(in.Concurrent, cfgs)
+		if in.Concurrent.Only {
+			out.Done(total, total)
+			return
+		}
+	}
 	if len(in.Cases) > 0 {
+		ret := &retainer{e: e}
 		for i := range in.Cases {
-			e.runCase(&in.Cases[i])
+			in.Cases[i].ret = ret
+			safely(&in.Cases[i])
 			total++
 		}
+		ret.flush()
 		out.Done(total, total)
 		return
 	}
@@ -1094,10 +1390,13 @@ func TestPropellerReplay(t *testing.T) {
 		wg.Add(1)
 		go func() {
 			defer wg.Done()
+			ret := &retainer{e: e}
 			for k := range jobs {
 				k := k
-				e.runCase(&k)
+				k.ret = ret
+				safely(&k)
 			}
+			ret.flush()
 		}()
 	}
 	sampled := 0
